@@ -439,7 +439,7 @@ INFO = {
                    "units is ==, has equal hash keys and the same instants; str(r) (a string with symbolic digits) parses back "
                    "through the real TimeRecurrenceParser to a recurrence == r with the same points.",
     "bounds": {"quick": {"anchors": "ordinal days 364-366 (PT36H also 100-101), any year, offsets +-3:59, any whole-second time",
-                         "shifts": "hours -50..50, days -40..40", "differences": "anchor / interval moved by 1..5000 s; repetitions +1",
+                         "shifts": "hours -50..50, days -40..40; month shifts -3..3 and year shifts -5..5 from calendar anchors 27-31 Jan-Mar (intervals P31D, PT36H, P1M) and year shifts from ordinal days 365-366: every given anchor of r + d, d + r, r - (-d) equals anchor + d as TimePoint addition computes it; start/end notation: one repetition when the moved anchors coincide, a ValueError refusal exactly when they are out of order", "differences": "anchor / interval moved by 1..5000 s; repetitions +1",
                          "respelling": "anchor in another whole-hour zone (+-3), PT36H as P1DT12H, P1D as PT24H", "mode": "gregorian"},
                "thorough": {"modes": "all 4", "anchors": "both windows for every interval"}},
     "outside": ["text round trip for week-date anchors and for anchors outside Jan-Mar / days 360-366", "more than 3 repetitions / points",
